@@ -55,13 +55,62 @@ Print Assumptions c04_identity_if_clean.
 
 
 (* ipt_chain_exists (linux.py:13-27) decides chain existence from the `-nL` listing with
-   line.startswith('Chain %s ' % name): for names without blanks this is exact membership, so
-   sshuttle-1230 is never confused with sshuttle-12300 (the trailing blank matters). *)
+   output.decode('ASCII', errors='replace') ... line.startswith('Chain %s ' % name).  The listing of the
+   model prints every rule's argv tokens and every chain name VERBATIM (arbitrary bytes: Latin-1,
+   invalid or valid UTF-8, control characters); the decode step is total and turns every byte >= 0x80
+   into U+FFFD.  For a sought name that is 7-bit, non-empty and without blanks (aname, nospace: every
+   'sshuttle-...<port>') and a table whose chain names have no blank (iptables refuses them), the test
+   is exact membership whatever the rules and the other names contain: sshuttle-1230 is never confused
+   with sshuttle-12300 (the trailing blank matters), a rule line never looks like a header (its first
+   word is the padded target column), a name with bytes >= 0x80 never decodes to an ASCII name. *)
 Theorem c04_chain_exists_exact : forall T name,
-  nospace name = true -> forallb (fun ch : chain => nospace (fst ch)) T = true ->
+  nospace name = true -> aname name = true -> forallb (fun ch : chain => nospace (fst ch)) T = true ->
   chain_in_listing name (listing T) = existsb (fun ch : chain => bytes_eqb (fst ch) name) T.
 Proof. exact chain_in_listing_spec. Qed.
 Print Assumptions c04_chain_exists_exact.
+
+(* The same for what the code computes on the raw bytes of the output — decode, split at every
+   line feed, startswith — provided no chain name and no rule token contains a line feed (tbl_nolf):
+   then the printed lines are exactly the pieces .split('\n') yields (c04_output_lines). *)
+Theorem c04_output_lines : forall name lines,
+  forallb line_nolf lines = true -> chain_in_output name (join_lines lines) = chain_in_listing name lines.
+Proof. exact chain_in_output_lines. Qed.
+Print Assumptions c04_output_lines.
+
+Theorem c04_chain_exists_bytes_exact : forall T name,
+  nospace name = true -> aname name = true ->
+  forallb (fun ch : chain => nospace (fst ch)) T = true -> tbl_nolf T = true ->
+  chain_in_output name (join_lines (listing T)) = existsb (fun ch : chain => bytes_eqb (fst ch) name) T.
+Proof. exact chain_exists_bytes_exact. Qed.
+Print Assumptions c04_chain_exists_bytes_exact.
+
+(* the decoder never fails and keeps the length: byte for code point *)
+Theorem c04_decode_total : forall b, length (decode_replace b) = length b.
+Proof. intro b. unfold decode_replace. apply map_length. Qed.
+Print Assumptions c04_decode_total.
+
+(* non-vacuity: odd bytes in a comment (incl. the text of a header on the same line), a rule jumping to
+   a chain called "Chain", foreign chains sshuttle-1230\xe9 and caf\xe9: the own chain is found iff it is there *)
+Example c04_listing_odd_bytes :
+  chain_in_output (nat_chain (bs "1230")) (join_lines (listing odd_nat)) = false /\
+  chain_in_output (bs "Chain") (join_lines (listing odd_nat)) = true /\
+  tbl_nolf odd_nat = true /\ forallb (fun ch : chain => nospace (fst ch)) odd_nat = true /\
+  chain_in_output (nat_chain (bs "1230")) (join_lines (listing (odd_nat ++ [(nat_chain (bs "1230"), [])]))) = true.
+Proof. exact listing_odd_bytes. Qed.
+
+(* F90 — tbl_nolf is needed: iptables accepts a line feed inside `--comment` and prints it verbatim, so
+   a foreign rule with the comment "x\nChain sshuttle-1230 (0 references)" makes the byte-level parse
+   report a chain that does not exist.  (The session model tests line by line and so assumes rule text
+   without line feeds; with such a rule present the real nat set-up fails at `-X sshuttle-1230`, nothing
+   is created and nothing is left behind — the harness shows it on the real code.) *)
+Theorem c04_listing_lf_refuted :
+  chain_in_output (nat_chain (bs "1230")) (join_lines (listing forged_nat)) = true /\
+  existsb (fun ch : chain => bytes_eqb (fst ch) (nat_chain (bs "1230"))) forged_nat = false /\
+  chain_in_listing (nat_chain (bs "1230")) (listing forged_nat) = false /\
+  tbl_nolf forged_nat = false /\
+  forallb (fun ch : chain => nospace (fst ch)) forged_nat = true.
+Proof. exact listing_lf_refuted. Qed.
+Print Assumptions c04_listing_lf_refuted.
 
 (* ================================================================== *)
 (* "Undone on every exit path" — GENERAL theorems (Proofs/FwLife_general.v). *)
@@ -83,7 +132,7 @@ Print Assumptions c04_chain_exists_exact.
 (* nat (methods/nat.py) without --user/--group *)
 Theorem c04_nat_all_exits : forall c,
   c_method c = MNat -> c_owner c = None -> c_udp c = false -> cfg_wf c = true ->
-  (forall f, nospace (fc_port (fcfg c f)) = true) ->
+  (forall f, pname_ok (fc_port (fcfg c f)) = true) ->
   forall s0 k cut, erase c s0 = s0 -> kst_wf s0 = true -> sess_ok c s0 k cut = true.
 Proof. exact nat_all_exits. Qed.
 Print Assumptions c04_nat_all_exits.
@@ -94,7 +143,7 @@ Print Assumptions c04_nat_all_exits.
    divert, so this is what `-X` needs (true of every rule tproxy.py generates). *)
 Theorem c04_tproxy_all_exits : forall c,
   c_method c = MTproxy -> c_repaired c = true -> cfg_wf c = true ->
-  (forall f, nospace (fc_port (fcfg c f)) = true) ->
+  (forall f, pname_ok (fc_port (fcfg c f)) = true) ->
   (forall f, fc_on (fcfg c f) = true -> tp_body_ordered (fc_port (fcfg c f)) (fc_body (fcfg c f)) = true) ->
   forall s0 k cut, erase c s0 = s0 -> kst_wf s0 = true -> sess_ok c s0 k cut = true.
 Proof. exact tproxy_all_exits. Qed.
@@ -113,7 +162,7 @@ Example c04_general_hyps_satisfiable :
   (cfg_wf cfg_nat = true /\ cfg_wf cfg_tproxy = true /\ cfg_wf cfg_nft = true) /\
   (kst_wf ex_state = true /\ kst_wf k_empty = true) /\
   (erase cfg_nat ex_state = ex_state /\ erase cfg_tproxy ex_state = ex_state /\ erase cfg_nft ex_state = ex_state) /\
-  nospace P1230 = true /\
+  pname_ok P1230 = true /\
   tp_body_ordered P1230 (tp_body P1230) = true /\
   nft_body_ok V6 P1230 (nft_body V6 P1230) = true /\ nft_body_ok V4 P1230 (nft_body V4 P1230) = true.
 Proof. vm_compute. repeat split. Qed.
@@ -145,7 +194,7 @@ Print Assumptions c04_samples_all_exits.
 Theorem c04_all_exits_full :
   forall c s0 k cut,
     c_method c = MNat -> c_owner c <> None -> c_udp c = false -> cfg_wf c = true ->
-    (forall f, nospace (fc_port (fcfg c f)) = true) ->
+    (forall f, pname_ok (fc_port (fcfg c f)) = true) ->
     erase c s0 = s0 -> kst_wf s0 = true ->
     (let r := session c cut (fault_at k) s0 in
      Nat.leb (r_fin_at r) k && match nth_cmd k (r_events r) with Some x => is_mark_delete x | None => false end = false) ->
@@ -159,7 +208,7 @@ Print Assumptions c04_all_exits_full.
 (* the same, spelled for a failing command that is known not to be the MARK deletion *)
 Corollary c04_nat_owner_all_exits : forall c s0 k cut,
   c_method c = MNat -> c_owner c <> None -> c_udp c = false -> cfg_wf c = true ->
-  (forall f, nospace (fc_port (fcfg c f)) = true) ->
+  (forall f, pname_ok (fc_port (fcfg c f)) = true) ->
   erase c s0 = s0 -> kst_wf s0 = true ->
   (forall x, nth_cmd k (r_events (session c cut (fault_at k) s0)) = Some x -> is_mark_delete x = false) ->
   sess_ok c s0 k cut = true.
@@ -432,7 +481,7 @@ Print Assumptions c04_log_faults_same_commands.
    (k beyond the last command): the final state is the initial one. *)
 Corollary c04_nat_all_exits_hangup : forall c v nl j0 i0 both pre,
   c_method c = MNat -> c_owner c = None -> c_udp c = false -> cfg_wf c = true ->
-  (forall f, nospace (fc_port (fcfg c f)) = true) ->
+  (forall f, pname_ok (fc_port (fcfg c f)) = true) ->
   forall s0 k cut, erase c s0 = s0 -> kst_wf s0 = true ->
   let r := rl_res (sessionL (mkLog v log_swallows (env_from j0 i0 COSError both) nl) pre c cut (fault_at k) s0) in
   (cut < c_nlines c -> r_final r = s0 /\ r_events r = []) /\
